@@ -69,6 +69,8 @@ def compute_domains_affine_leq(domains: NDArray, parameters: NDArray) -> int:
             domain_sum_max -= c * domains[i, MAX]
     if domain_sum_min >= 0:
         return PROP_ENTAILMENT
+    if domain_sum_max < 0:  # even the smallest value of the sum is too large
+        return PROP_INCONSISTENCY
     old_domains = np.copy(domains)
     for i, c in enumerate(parameters[:-1]):
         if c != 0:
